@@ -209,6 +209,7 @@ def run_case(c, rng, sb, order, res, patterns=None, allow_extra_input=True, pref
         lp = os.path.join(inp, rel)
         if not os.path.lexists(lp):
             os.symlink(os.path.join(sb, "no-such-place", "gone.cmake"), lp)
+    c.cwd, c.home = cwd, home
     c.fr = fsrun.run_monitored(sb, argv, cwd, home, order=order)
     c.got = fsrun.files_under(out_abs) if os.path.isdir(out_abs) else set()
     return c
